@@ -97,7 +97,9 @@ Definition tok_text (t : tok) : string :=
 (* one number per position of the output under construction *)
 Definition ws_choice := nat -> N.
 Definition mk_ws (seed : N) : ws_choice :=
-  fun i => ((((seed + 1) * 2654435761 + (N.of_nat i + 7) * (N.of_nat i + 13) * 40503 + N.of_nat i * 977) / 64) mod 65536)%N.
+  let a := (N.land ((seed + 1) * 2654435761) 1099511627775)%N in
+  fun i => let n := N.of_nat i in
+           N.land (N.shiftr (a + (n + 7) * (n + 13) * 40503 + n * 977) 6) 65535.
 Definition ws_none : ws_choice := fun _ => 353%N.   (* no redundant parentheses, no optional blanks *)
 
 (* ------------------------------------------------------------------ literals *)
@@ -290,15 +292,15 @@ Definition blanks (g : gap) (k : N) : string :=
 Fixpoint render (ws : ws_choice) (l : list tok) (pos : nat) : string :=
   match l with
   | [] => ""
-  | [t] => tok_text t ++ blanks GAny (ws (pos + 3)%nat / 8)
+  | [t] => tok_text t ++ blanks GAny (N.shiftr (ws (pos + 3)%nat) 3)
   | t1 :: ((t2 :: _) as r) =>
-    let b := blanks (gap_of t1 t2) (ws (pos + 3)%nat / 8) in
+    let b := blanks (gap_of t1 t2) (N.shiftr (ws (pos + 3)%nat) 3) in
     tok_text t1 ++ b ++ render ws r (S pos)
   end.
 
 Definition tokens (ws : ws_choice) (s : stmt) : list tok := rev (stoks ws s []).
 Definition print (ws : ws_choice) (s : stmt) : string :=
-  blanks GAny (ws 0%nat / 8) ++ render ws (tokens ws s) 1.
+  blanks GAny (N.shiftr (ws 0%nat) 3) ++ render ws (tokens ws s) 1.
 Definition print_expr (ws : ws_choice) (e : expr) : string := print ws (SExpr e).
 
 (* ------------------------------------------------------------------ the `(...) !=` shape *)
@@ -310,16 +312,29 @@ Definition root_start (prev : option tok) : bool :=
               | _ => false
               end
   end.
-(* the token after the parenthesis that matches an opening one (depth counts ( only) *)
-Fixpoint after_close (l : list tok) (depth : nat) : option tok :=
+(* the tokens after the parenthesis that matches an opening one (depth counts ( only) *)
+Fixpoint after_close (l : list tok) (depth : nat) : list tok :=
   match l with
-  | [] => None
+  | [] => []
   | TLP :: r => after_close r (S depth)
   | TRP :: r => match depth with
-                | O => match r with t :: _ => Some t | [] => None end
+                | O => r
                 | S d => after_close r d
                 end
   | _ :: r => after_close r depth
+  end.
+(* skip index suffixes `[ .. ]` (subX = sub item_get attr_get) *)
+Fixpoint skip_index (fuel : nat) (l : list tok) (depth : nat) : list tok :=
+  match fuel with
+  | O => l
+  | S f =>
+    match l, depth with
+    | TLB :: r, _ => skip_index f r (S depth)
+    | (TRBidx | TRBarr) :: r, S d => skip_index f r d
+    | _ :: r, S _ => skip_index f r depth
+    | _, O => l
+    | [], _ => []
+    end
   end.
 Fixpoint paren_ne_scan (prev : option tok) (l : list tok) : bool :=
   match l with
@@ -327,7 +342,7 @@ Fixpoint paren_ne_scan (prev : option tok) (l : list tok) : bool :=
   | t :: r =>
     (match t with
      | TLP => if root_start prev then
-                match after_close r 0 with Some (TOp s) => String.eqb s "!=" | _ => false end
+                match skip_index (length r) (after_close r 0) 0 with TOp s :: _ => String.eqb s "!=" | _ => false end
               else false
      | _ => false
      end) || paren_ne_scan (Some t) r
